@@ -334,3 +334,100 @@ func init() {
 		},
 	}
 }
+
+func init() {
+	props["C04"] = &propDef{
+		ID:       "C04",
+		Anchored: []string{").Memset", ").Zero", "memsetIter", "zeroIter", "copyDense", "CopyIter", "tensor.Copy", ").Clone", ").Materialize", ").CopyTo", "RequiresIterator", "IsMaterializable", "sliceInto", ").Slice"},
+		Bounds: map[string]interface{}{"parents": "(5), (3,4), (4,3), (2,3,2) quick; + (4,4), (2,2,3), (3,2,2,2) thorough; row- and column-major", "views": "one sliced axis with (start,end,step) enumerated by the solver over all valid triples with step<=3 (outside the open C02 findings), lazy transpose, slice of a lazy transpose",
+			"writes": "Memset, Zero, SetAt sweep, Copy into the view (source layouts C,T,S), unsafe Neg, unsafe Add tensor/scalar", "data": "all parent cells (sentinels), written values and source operands symbolic",
+			"copies": "Clone, Materialize, Copy, CopyTo over layouts C,F,T,S,SS,M (+ lazily transposed), element sizes 1-16 and string", "not_covered": "ToMat64/FromMat64 (needs a gonum/mat model) and package native conversions (separate package): listed as not covered"},
+		Instances: func(tier string, seed int64) []Instance {
+			var out []Instance
+			type par struct {
+				s    []int
+				axes []int
+			}
+			pars := []par{{[]int{5}, []int{0}}, {[]int{3, 4}, []int{0, 1}}, {[]int{4, 3}, []int{1}}, {[]int{2, 3, 2}, []int{1, 2}}}
+			if tier == "thorough" {
+				pars = append(pars, par{[]int{4, 4}, []int{0, 1}}, par{[]int{2, 2, 3}, []int{0, 2}}, par{[]int{2, 3, 2}, []int{0}}, par{[]int{3, 2, 2, 2}, []int{0, 3}})
+			}
+			writes := []string{"memset", "zero", "setat", "copy", "neg", "add", "addscalar"}
+			n := 0
+			for _, p := range pars {
+				for _, base := range []string{"C", "F"} {
+					for _, view := range []string{"slice", "T", "Tslice"} {
+						if len(p.s) < 2 && view != "slice" {
+							continue
+						}
+						axes := p.axes
+						if view == "T" {
+							axes = []int{0}
+						}
+						for _, ax := range axes {
+							for wi, w := range writes {
+								dts := []string{"float64"}
+								if w == "memset" || w == "zero" || w == "copy" || w == "setat" {
+									dts = []string{"float64", "int8", "int16", "float32", "complex128", "string", "bool"}
+								} else {
+									dts = []string{"float64", "int", "int8", "complex128"}
+								}
+								for di, dt := range dts {
+									n++
+									if tier == "quick" {
+										full := base == "C" && view == "slice" && len(p.s) == 2 && p.s[0] == 3
+										if !full && (n+wi+di)%5 != 0 {
+											continue
+										}
+									} else if base == "F" && (n+di)%2 != 0 {
+										continue
+									}
+									srcl := []string{"C", "T", "S"}[(n+wi)%3]
+									out = append(out, mkInst("vhC04Frame", map[string]interface{}{"dtype": dt, "shape": p.s, "base": base, "view": view, "axis": ax, "write": w, "srclayout": srcl},
+										"dtype", "shape", "base", "view", "axis", "write", "srclayout"))
+								}
+							}
+							for di, dt := range []string{"float64", "int", "int8", "complex128", "string"} {
+								if tier == "quick" && (n+di)%3 != 0 {
+									continue
+								}
+								out = append(out, mkInst("vhC04Alias", map[string]interface{}{"dtype": dt, "shape": p.s, "base": base, "view": view, "axis": ax}, "dtype", "shape", "base", "view", "axis"))
+							}
+						}
+					}
+				}
+			}
+			cshapes := [][]int{{}, {3}, {2, 3}, {3, 1}, {2, 2, 2}}
+			if tier == "thorough" {
+				cshapes = append(cshapes, []int{1, 3}, []int{2, 1, 2}, []int{2, 3, 2}, []int{2, 2, 1, 2})
+			}
+			for si, sh := range cshapes {
+				for li, lay := range []string{"C", "F", "T", "S", "SS", "M"} {
+					if len(sh) == 0 && lay != "C" {
+						continue
+					}
+					if (lay == "S" || lay == "SS" || lay == "M") && (len(sh) == 0 || sh[len(sh)-1] < 2) {
+						continue
+					}
+					for _, lt := range []int{0, 1} {
+						if lt == 1 && (lay == "T" || len(sh) < 2) {
+							continue
+						}
+						for oi, op := range []string{"clone", "materialize", "copy", "copyto", "safet", "apitranspose"} {
+							for di, dt := range []string{"float64", "bool", "int8", "int16", "float32", "complex128", "string"} {
+								if tier == "quick" && (si+li+oi+di+lt)%4 != 0 {
+									continue
+								}
+								if op == "copyto" && (lt == 1 || lay == "T") {
+									continue // CopyTo is documented as a raw copy that ignores metadata: lazily transposed sources are outside the comparison
+								}
+								out = append(out, mkInst("vhC04Copy", map[string]interface{}{"dtype": dt, "shape": sh, "layout": lay, "lazyT": lt, "op": op}, "dtype", "shape", "layout", "lazyT", "op"))
+							}
+						}
+					}
+				}
+			}
+			return out
+		},
+	}
+}
